@@ -207,8 +207,8 @@ def families(tier, seed):
         mcases.append({"name": name, "sys": tag, "forms": list(allforms), "dispatch_heavy": True})
     fams.append(("mprocess", mcases))
     fams.append(("ensemble", [{"name": n} for n in se.get_state_ensemble_names()]))
-    leg = [{"what": "gate1", "basis": b} for b in ("Q1", "Q1h")] + [{"what": "gate2", "basis": "Q1", "names": nm} for nm in ([0, 1], [4, 2])] + \
-          [{"what": "state", "basis": b} for b in ("Q1", "Q1h")] + [{"what": "povm", "basis": b} for b in ("Q1", "Q1h")] + \
+    leg = [{"what": "gate1", "basis": b} for b in ("Q1", "Q1h", "Q1r", "Q1x")] + [{"what": "gate2", "basis": "Q1", "names": nm} for nm in ([0, 1], [4, 2])] + \
+          [{"what": "state", "basis": b} for b in ("Q1", "Q1h", "Q1r")] + [{"what": "povm", "basis": b} for b in ("Q1", "Q1h", "Q1r")] + \
           [{"what": "param", "basis": "Q1"}]
     fams.append(("legacy", leg))
     fams.append(("tester", [{"kind": k, "sys": t} for k in ("states", "povms") for t in ("Q1", "D2,2", "Q3", "D3,3")] +
